@@ -138,6 +138,9 @@ func VH_C07_both() {
 	vAssume(vAll(ea == nil, eb == nil, len(ta) == 1, len(tb) == 1))
 	vhSaneExp(a.c)
 	vhSaneExp(b.c)
+	// (the two sides drew different exponents: equal ones make the DH values and
+	// commit hashes equal and nobody the winner - a 2^-320 event)
+	vAssume(!vBytesEq(a.c.ake.secretExponent, b.c.ake.secretExponent))
 	net.ab = append(net.ab, ta...)
 	net.ba = append(net.ba, tb...)
 	vhRunNet(net, a, b, 14)
